@@ -206,10 +206,9 @@ RETCODE adfRenameEntry ( struct AdfVolume * const vol,
         else if (previous.secType==ST_FILE)
             rc=adfWriteFileHdrBlock(vol, previous.headerKey, 
                    (struct bFileHeaderBlock*)&previous);
-        else {
-            (*adfEnv.wFct)("adfRenameEntry : unknown entry type");
-            rc = RC_ERROR;
-        }
+        else
+            /* a link entry at the end of the chain: written with its own layout */
+            rc = adfWriteEntryBlock ( vol, previous.headerKey, &previous );
         if ( rc != RC_OK )
             return rc;
     }
@@ -947,7 +946,8 @@ SECTNUM adfCreateEntry ( struct AdfVolume * const   vol,
         rc=adfWriteFileHdrBlock(vol, updEntry.headerKey, 
 		    (struct bFileHeaderBlock*)&updEntry);
     else
-        (*adfEnv.wFct)("adfCreateEntry : unknown entry type");
+        /* a link entry at the end of the chain: written with its own layout */
+        rc = adfWriteEntryBlock ( vol, updEntry.headerKey, &updEntry );
 
 /*puts("adfCreateEntry out, hash");*/
     if (rc!=RC_OK) {
